@@ -178,10 +178,11 @@ def job(cfg):
     t0 = time.time()
     mod = ir.Module(open(cfg['ll']).read())
     B = BOUNDS[cfg['tier']]
+    if cfg['kernel'] == 'gemm_p' and cfg['tier'] == 'thorough': B = dict(B, R=2, C=2, NNZ=4)      # two symbolic CCS operands: 2 x 2 including full patterns
     build, oracle, _ = KERNELS[cfg['kernel']]
     sc, fname, args, info = build(mod, B, *cfg['variant'])
     extra_pre = [genuine_block(info)] if cfg['kernel'] in ('gemv', 'symv') else []
-    ex = X.Executor(mod, sc, max_paths=cfg.get('max_paths', 20000), branch_timeout_ms=3000, loop_bound=B['NNZ'] + B['M'] + 2)
+    ex = X.Executor(mod, sc, max_paths=cfg.get('max_paths', 20000), branch_timeout_ms=3000, loop_bound=((B['NNZ'] + 1)*(B['NNZ'] + 1) + 2) if cfg['kernel'] == 'gemm_p' else (B['NNZ'] + B['M'] + 2))
     ex.math_ints = True; ex.fmul = K.fm
     res = {'kernel': cfg['kernel'], 'variant': cfg['variant'], 'paths': 0, 'kinds': {}, 'obl': {'total': 0, 'unsat': 0, 'sat': 0, 'unknown': 0},
            'solver_s': 0.0, 'findings': [], 'unsupported': [], 'sample': None, 'instructions': 0}
